@@ -1815,6 +1815,8 @@ class SQLParser:
                 is_zerofill = True
             elif scanner.search_one_type_str_use_upper("GENERATED"):  # GENERATED ALWAYS AS
                 generated_always_as = cls._parse_generated_column(scanner, sql_type)
+                if generated_always_as is None:
+                    raise SqlParseError(f"GENERATED 之后不是 ALWAYS AS: {scanner}")
             else:
                 raise SqlParseError(f"无法解析的 DDL 字段表达式的字段属性: {scanner}")
 
